@@ -201,7 +201,10 @@ def main():
         except subprocess.TimeoutExpired:
             rc, out = 124, "timeout"
         if os.path.exists(res_path):
-            res = json.load(open(res_path))
+            try:
+                res = json.load(open(res_path))
+            except Exception as e:  # noqa: BLE001
+                failures.append(("search", "harness:result-unreadable", "the harness result cannot be read (%s):\n%s" % (e, out[-2000:]), {"output_tail": out[-2000:]}))
             os.remove(res_path)
         else:
             failures.append(("search", "harness:crash", "the harness did not finish (exit %s):\n%s" % (rc, out[-3000:]), {"output_tail": out[-3000:]}))
